@@ -140,6 +140,27 @@ def check(run):
                                                      "tests": tests[sn], "subs": []}
                                                     for j, sn in enumerate(["s6", "s7"]) if tests[sn]]}
         base.append(d)
+    # a dependency skipped because its SUITE was aborted (AbortSuite raised by an earlier test of that suite): the dependents in
+    # other suites and in sub-suites are skipped too
+    acases = []
+    for k, (nthreads, where) in enumerate([(1, "body"), (2, "body"), (1, "teardown_test"), (3, "body")]):
+        a_tests = [tst("t10", 0, [], [["raise", "AbortSuite"]] if where == "body" else [["mark", 1]]),
+                   tst("t11", 1, [], [["mark", 2]]), tst("t12", 2, ["s6.t11"], [["mark", 3]])]
+        hooks = dict(nohooks, teardown_test=[["raise", "AbortSuite"]]) if where == "teardown_test" else nohooks
+        sub = {"name": "s8", "disabled": False, "rank": 0, "hooks": nohooks, "injected": [], "subs": [],
+               "tests": [tst("t20", 0, ["s6.t11"], [["mark", 4]]), tst("t21", 1, [], [["mark", 5]])]}
+        b = {"name": "s7", "disabled": False, "rank": 1, "hooks": nohooks, "injected": [], "subs": [],
+             "tests": [tst("t30", 0, ["s6.t11"], [["mark", 6]]), tst("t31", 1, ["s7.t30"], [["mark", 7]]), tst("t32", 2, [], [["mark", 8]])]}
+        a = {"name": "s6", "disabled": False, "rank": 0, "hooks": hooks, "injected": [], "tests": a_tests, "subs": [sub]}
+        acases.append({"id": "das%d" % k, "project": {"fixtures": [], "suites": [a, b]}, "sched": projgen.gen_sched(run.rng),
+                       "options": {"nb_threads": nthreads, "stop_on_failure": False, "force_disabled": False}})
+    ares = engine.cosim(run, acases)
+    for c in acases:
+        r = ares.get(c["id"]) or {"outcome": ["hang", "no result"]}
+        run.evaluations += 1
+        run.count("dependency_in_an_aborted_suite_runs")
+        for sig, text in runoracle.c04_oracle(c, r):
+            run.violation(sig, text, {"case": c, "outcome": r.get("outcome")})
     for c in base:
         c["base_exception"] = True
     bres = engine.cosim(run, base, layers=(1, 2))
